@@ -112,7 +112,28 @@ def check_pruner_arg(ctx: Ctx, cname: str, new: FuncInfo, call: ast.Call) -> Non
         else:
             ctx.violation("C05-O1", new, call, f"inputs are transformed by `{unparse(elt)[:70]}` before pruning; classical patterns must be wrapped as *unshaded* mesh patterns and mesh patterns kept as they are")
         return
-    ctx.violation("C05-O1", new, call, f"sorted() is applied to `{unparse(src)[:60]}`, not to all input patterns")
+    if isinstance(src, ast.Call) and call_name(src) == ("map",) and len(src.args) == 2 and isinstance(src.args[1], ast.Name) and src.args[1].id == va:
+        # map(<wrapper>, inputs): the wrapper must keep mesh patterns and wrap classical ones unshaded
+        h = None
+        fcn = call_name(ast.Call(func=src.args[0], args=[], keywords=[]))
+        if fcn:
+            h = ctx.repo.method(cname, fcn[-1]) or new.module.functions.get(fcn[-1])
+        if h is not None:
+            ps = h.params if (h.cls is None or h.is_static) else h.params[1:]
+            rets = [st for st in h.body if isinstance(st, ast.Return)]
+            if len(ps) == 1 and len(h.body) == 1 and len(rets) == 1 and isinstance(rets[0].value, ast.IfExp):
+                v, e = ps[0], rets[0].value
+                if unparse(e.test) == f"isinstance({v}, MeshPatt)" and unparse(e.body) == v and isinstance(e.orelse, ast.Call) and call_name(e.orelse) == ("MeshPatt",):
+                    a0 = e.orelse.args[0] if e.orelse.args else next((k.value for k in e.orelse.keywords if k.arg == "pattern"), None)
+                    sh = e.orelse.args[1] if len(e.orelse.args) > 1 else next((k.value for k in e.orelse.keywords if k.arg == "shading"), None)
+                    if a0 is not None and unparse(a0) == v and (sh is None or unparse(sh) in ("[]", "()", "frozenset()", "set()")):
+                        ctx.ok("C05-O1", new.where, f"_pruner(sorted(map({unparse(src.args[0])}, inputs))): every input, classical patterns wrapped as unshaded mesh patterns", call, new)
+                        return
+        raise AnalysisError(f"{new.where}: the wrapper `{unparse(src.args[0])}` applied to the inputs before sorting is not recognised")
+    if isinstance(src, ast.Subscript) and isinstance(src.value, ast.Name) and src.value.id == va:
+        ctx.violation("C05-O1", new, call, f"sorted() is applied to `{unparse(src)[:60]}`, not to all input patterns")
+        return
+    raise AnalysisError(f"{new.where}: what is sorted (`{unparse(src)[:60]}`) is not recognised")
 
 
 def sort_key_injective(ctx: Ctx, cname: str, key: ast.AST):
